@@ -8,15 +8,18 @@
 EXTENDS Integers, Sequences, FiniteSets, TLC
 
 \* SIZEL: a second, laxer size_limit (1000 bytes: it lets the "big" body through, the stricter SIZE behind it must still refuse)
-Valid == {"P1", "P2", "P3", "AUTH", "SIZE", "SIZEL", "HDR", "LOG", "GZIP", "RID"}
-Invalid == {"NONAME!", "AUTH_nokey!", "AUTH_numkey!", "SIZE_neg!", "SIZE_zero!", "SIZE_str!",
+\* AUTHBLANK: custom-auth configured with a whitespace-only key.  No request can present such a key, so the plugin
+\* either refuses to start or turns every request away; it must never let one through
+Valid == {"P1", "P2", "P3", "AUTH", "AUTHBLANK", "SIZE", "SIZEL", "HDR", "LOG", "GZIP", "RID"}
+Invalid == {"NONAME!", "AUTH_nokey!", "AUTH_numkey!", "AUTH_emptykey!", "SIZE_neg!", "SIZE_zero!", "SIZE_str!",
             "GZIP_nolevel!", "GZIP_level99!", "GZIP_types!", "HDR_badval!"}
 Probes == {"P1", "P2", "P3"}
 
 \* request classes: key "ok" or one of the wrong / missing forms, body \in {"small","big"}
 Rejects(p, req) == \/ p = "AUTH" /\ req.key # "ok"
+                   \/ p = "AUTHBLANK"
                    \/ p = "SIZE" /\ req.body = "big"
-RejectCode(p) == IF p = "AUTH" THEN 401 ELSE 413
+RejectCode(p) == IF p \in {"AUTH", "AUTHBLANK"} THEN 401 ELSE 413
 
 RECURSIVE Walk(_, _, _, _)
 \* returns [enter, backend, status]
@@ -34,7 +37,7 @@ Reverse(s) == [i \in DOMAIN s |-> s[Len(s) - i + 1]]
 Check(c, o) ==
   IF HasInvalid(c)
   THEN IF o.build = "err" THEN <<>> ELSE <<"BuildFailsClosed">>
-  ELSE IF o.build # "ok" THEN <<"ValidChainRejected">>
+  ELSE IF o.build # "ok" THEN (IF \E i \in DOMAIN c.chain : c.chain[i] = "AUTHBLANK" THEN <<>> ELSE <<"ValidChainRejected">>)
   ELSE LET e == Expected(c) IN
        (IF o.enter # e.enter THEN <<IF Len(o.enter) > Len(e.enter) THEN "RejectionStops" ELSE "Order">> ELSE <<>>)
        \o (IF o.exit # Reverse(o.enter) THEN <<"ExitOrder">> ELSE <<>>)
